@@ -217,6 +217,18 @@ def mk_dur(r):
                     hours=r.get("h", 0), minutes=r.get("mi", 0), seconds=r.get("s", 0))
 
 
+def respellings(p, rnd):
+    """Other TimePoints denoting the instant of the whole-second point p: another offset and the other date representations.
+    (Operands for "same operation, same process, equal instant written differently" cases: a result must depend on how
+    its operand is written exactly as the property says, never on an earlier equal-instant operand.)"""
+    zh, zm = rnd.choice([(0, 0), (1, 0), (-3, -30), (5, 45), (-11, 0), (13, 45), (0, 30), (0, -30)])
+    out = [p.to_time_zone(TimeZone(hours=zh, minutes=zm))]
+    out += [f() for f in (p.to_week_date, p.to_ordinal_date, p.to_calendar_date) if True]
+    return [q for q in out if not (q._year == p._year and q._month_of_year == p._month_of_year and q._day_of_year == p._day_of_year
+                                   and q._week_of_year == p._week_of_year and q._time_zone._hours == p._time_zone._hours
+                                   and q._time_zone._minutes == p._time_zone._minutes)]
+
+
 # --------------------------------------------------------------------------- watchdog
 class cpu_watchdog:
     """Raise `exc` inside the block once it has used `seconds` of this process's own CPU time (ITIMER_VIRTUAL), so that
